@@ -346,7 +346,11 @@ impl IndexManager {
             segment_bits: header_v2.file_offset_bits,
         };
 
-        let entry_size = (header.key_size + header.location_size + header.length_size) as usize;
+        // (the three widths are bytes read from the file: add them as usize, their
+        // u8 sum can overflow)
+        let entry_size = header.key_size as usize
+            + header.location_size as usize
+            + header.length_size as usize;
         Ok((header, entry_size))
     }
 
@@ -368,12 +372,23 @@ impl IndexManager {
             entry_block.block_size, entry_block.block_hash
         );
 
-        // Read entry data (limited to block_size for safety)
+        // Read entry data (limited to block_size for safety). The size is a field
+        // of the file: let the buffer grow with the bytes actually present instead
+        // of allocating the announced size up front.
         let entry_data_size = entry_block.block_size as usize;
-        let mut entry_data = vec![0u8; entry_data_size];
+        let mut entry_data = Vec::new();
         reader
-            .read_exact(&mut entry_data)
+            .by_ref()
+            .take(entry_data_size as u64)
+            .read_to_end(&mut entry_data)
             .map_err(|e| StorageError::Index(format!("Failed to read entry data: {e}")))?;
+        if entry_data.len() != entry_data_size {
+            return Err(StorageError::Index(format!(
+                "Failed to read entry data: block size {} but only {} bytes follow",
+                entry_data_size,
+                entry_data.len()
+            )));
+        }
 
         Ok(entry_data)
     }
@@ -715,9 +730,9 @@ impl IndexManager {
     fn save_index(id: u8, index: &IndexFile, path: &Path) -> Result<()> {
         use cascette_crypto::jenkins::hashlittle;
 
-        let entry_size = (index.header.key_size
-            + index.header.location_size
-            + index.header.length_size) as usize;
+        let entry_size = index.header.key_size as usize
+            + index.header.location_size as usize
+            + index.header.length_size as usize;
 
         // Build IndexHeaderV2 bytes
         let header_v2 = IndexHeaderV2 {
